@@ -376,7 +376,7 @@ impl Check for C17 {
             }
             "miri" => {
                 let out = std::process::Command::new("cargo")
-                    .args(["+nightly", "miri", "run", "--offline", "--manifest-path", "/verif/harness/Cargo.toml", "--target-dir", "/verif/.build/miri", "--", "miri-sample", &shard.to_string(), &unit.shards.to_string()])
+                    .args(["+nightly", "miri", "run", "--offline", "--manifest-path", &format!("{}/harness/Cargo.toml", verif_root()), "--target-dir", &format!("{}/.build/miri", verif_root()), "--", "miri-sample", &shard.to_string(), &unit.shards.to_string()])
                     .env("MIRIFLAGS", "-Zmiri-disable-isolation")
                     .env_remove("RUSTFLAGS")
                     .output();
